@@ -135,6 +135,16 @@ def impl(case):
     flags = ""
     if [p[i] for i in range(len(p))] != list(p) or len(p) != len(seq):
         flags += " iter-ne-index"
+    # a slice of a pool is a pool: same dice as the slice of the sequence, in the canonical order, with its own total
+    import random as _random
+
+    r = _random.Random(case.get("salt", 0))
+    for _ in range(3):
+        sl = slice(r.choice([None, 0, 1, 2, -1, -2, len(p)]), r.choice([None, 0, 1, 2, -1, len(p)]), r.choice([None, 1, 2, -1, -1, -2]))
+        q, ref = p[sl], P(*list(p)[sl])
+        if _pool_out(q, enc) != _pool_out(ref, enc) or [q[i] for i in range(len(q))] != list(ref) or q.total != ref.total or not (q == ref):
+            flags += " slice(%s,%s,%s)-not-canonical" % (sl.start, sl.stop, sl.step)
+            break
     p2 = P(*_build_args(_shuffled(case["args"], case.get("salt", 0))))
     if k == "pmatmul":
         p2 = case["n"] @ p2
